@@ -107,7 +107,7 @@ impl<'a> Gen<'a> {
         // weights: open close write_at read_at write read seek set_len sync_all sync_data handle_len
         //          sync_dir rename remove_file create_dir create_dir_all remove_dir remove_dir_all
         //          read_dir metadata exists read_whole write_whole advance
-        let w = [14, 4, 12, 8, 6, 5, 3, 7, 5, 3, 2, 7, 9, 6, 7, 2, 3, 2, 4, 4, 2, 4, 3, 2];
+        let w = [14, 4, 12, 8, 6, 5, 3, 7, 5, 3, 2, 7, 9, 6, 7, 2, 3, 2, 4, 4, 2, 4, 3, 2, 4, 3, 2];
         let k = self.rng.weighted(&w);
         Some(match k {
             0 => {
@@ -187,7 +187,24 @@ impl<'a> Gen<'a> {
                 let path = if self.rng.bool() { self.creatable(m) } else { self.existing(m, Some(false))? };
                 FsOp::WriteWhole { path, len: self.rng.range(0, 12) as u32, tag: self.next_tag(), front: self.front() }
             }
-            _ => FsOp::Advance { ms: self.rng.range(1, 5000) as u32 },
+            23 => FsOp::Advance { ms: self.rng.range(1, 5000) as u32 },
+            // io_uring front-end. The ring looks only at the fd, not at the access mode the file was
+            // opened with, so ring ops are generated only where the mode allows the operation.
+            24 => {
+                let hs: Vec<u8> = m.handles.iter().filter(|(_, h)| h.write && !h.append).map(|(k, _)| *k).collect();
+                if hs.is_empty() {
+                    return None;
+                }
+                FsOp::RingWrite { h: *self.rng.pick(&hs), off: self.rng.below(20), len: self.rng.range(1, 12) as u32, tag: self.next_tag() }
+            }
+            25 => {
+                let hs: Vec<u8> = m.handles.iter().filter(|(_, h)| h.read).map(|(k, _)| *k).collect();
+                if hs.is_empty() {
+                    return None;
+                }
+                FsOp::RingRead { h: *self.rng.pick(&hs), off: self.rng.below(24), len: self.rng.range(1, 32) as u32 }
+            }
+            _ => FsOp::RingFsync { h: self.handle(m)? },
         })
     }
 }
@@ -358,7 +375,7 @@ impl Property for C10 {
     type Scenario = Scenario;
 
     fn rule() -> String {
-        "seeded state-aware histories of 4-28 filesystem ops (open flag combinations, write_at/read_at with holes and overlaps, cursor read/write/seek, set_len both ways, rename onto new/existing names and across directories, remove+re-create, create_dir(_all)/remove_dir(_all), read_dir, metadata, sync_all/sync_data/sync_dir anywhere, virtual time advancing) over 10 nested path names on 1-2 hosts through the std and tokio shims; after EVERY op the return value and a full sweep (exists/kind/len/content/entry set of every path) are compared with an inode-based POSIX reference tree; each base history is also run with all sync ops deleted. Non-trivial: the history contains >=1 overwrite or truncate of existing data and >=1 namespace change (rename/remove) that succeeded; distinct = distinct digests of the (op kind, outcome kind) sequence".into()
+        "seeded state-aware histories of 4-28 filesystem ops (open flag combinations, write_at/read_at with holes and overlaps, cursor read/write/seek, set_len both ways, rename onto new/existing names and across directories, remove+re-create, create_dir(_all)/remove_dir(_all), read_dir, metadata, sync_all/sync_data/sync_dir anywhere, virtual time advancing) over 10 nested path names on 1-2 hosts through the std shim, the tokio shim and io_uring; after EVERY op the return value and a full sweep (exists/kind/len/content/entry set of every path) are compared with an inode-based POSIX reference tree; each base history is also run with all sync ops deleted. Non-trivial: the history contains >=1 overwrite or truncate of existing data and >=1 namespace change (rename/remove) that succeeded; distinct = distinct digests of the (op kind, outcome kind) sequence".into()
     }
     fn components_real() -> Vec<&'static str> {
         vec!["turmoil-fs: Fs, enter/EnterCtx, shim::std::fs (File, OpenOptions, FileExt, free functions), shim::tokio::fs"]
@@ -371,7 +388,7 @@ impl Property for C10 {
             "all fault probabilities are 0 and no io latency / page cache is configured (the property's premise)".into(),
             "error kinds are compared for NotFound/AlreadyExists/IsADirectory/NotADirectory/DirectoryNotEmpty; for other errors only Ok-vs-Err".into(),
             "read-only opens of directories, symlinks, hard links, permissions and timestamps are not generated (outside the property)".into(),
-            "io_uring as a front-end on this tree is exercised by C18, not here".into(),
+            "io_uring ops (write/read/fsync SQEs pushed, submitted and reaped at once) are generated only on handles whose open mode allows the operation (the ring sees only the fd)".into(),
         ]
     }
     fn budget(tier: Tier) -> u64 {
